@@ -54,7 +54,7 @@ IMPLICIT = Contract(
     ensures=[
         # implicit tagging replaces only the outermost (last) tag and keeps its primitive/constructed form
         ('same-depth', 'len(%s) == %s' % (R, N)),
-        ('replaces-outermost', '%s[%s - 1].tagClass == superTag.tagClass and %s[%s - 1].tagId == superTag.tagId' % (R, N, R, N)),
+        ('replaces-outermost', '%s[%s - 1].tagClass == old(superTag).tagClass and %s[%s - 1].tagId == old(superTag).tagId' % (R, N, R, N)),
         ('keeps-form-of-replaced-tag', '%s[%s - 1].tagFormat == tags[%s - 1].tagFormat' % (R, N, N)),
         ('inner-tags-untouched', '%s >= 2 ==> (%s[0].tagClass == tags[0].tagClass and %s[0].tagFormat == tags[0].tagFormat '
                                  'and %s[0].tagId == tags[0].tagId and %s[%s - 2].tagId == tags[%s - 2].tagId and '
@@ -65,7 +65,7 @@ EXPLICIT = Contract(
     ensures=[
         # explicit tagging adds one constructed tag on top and leaves the others alone
         ('one-more-tag', 'len(%s) == %s + 1' % (R, N)),
-        ('added-tag', '%s[%s].tagClass == superTag.tagClass and %s[%s].tagId == superTag.tagId' % (R, N, R, N)),
+        ('added-tag', '%s[%s].tagClass == old(superTag).tagClass and %s[%s].tagId == old(superTag).tagId' % (R, N, R, N)),
         ('added-tag-is-constructed', '%s[%s].tagFormat == 32' % (R, N)),
         ('others-untouched', '%s >= 1 ==> (%s[0].tagClass == tags[0].tagClass and %s[%s - 1].tagFormat == '
                              'tags[%s - 1].tagFormat and %s[%s - 1].tagId == tags[%s - 1].tagId)' % (N, R, R, N, N, R, N, N))],
